@@ -24,7 +24,7 @@ import random
 from concurrent.futures import ThreadPoolExecutor
 from typing import Any
 
-from harness import analyze, kaisa, progs, simdist
+from harness import analyze, confluence, kaisa, progs, simdist
 from harness.common import Verdict, chash
 from harness.par import pmap
 
@@ -368,6 +368,17 @@ def main(tier: str, seed: int) -> int:
         if len(s) > 1:
             raise RuntimeError(
                 f'reduced and full Comm configs disagree: {s}')
+    # ---- the lemma the reduced configs rest on (harness/confluence.py) ----
+    with ThreadPoolExecutor(max_workers=8) as ex:
+        confl = list(ex.map(confluence.check_batch,
+                            confluence.batches(tier, seed)))
+    for c in confl:
+        if not c['ok']:
+            raise RuntimeError(
+                f'Comm.tla is not persistent/commutative, the reduced '
+                f'configurations are unsound: {c}')
+    states += sum(c['states'] for c in confl)
+    trans += sum(c['edges'] for c in confl)
     # ---- direction A: TLC schedules into the code --------------------------
     n_rep = 6 if tier == 'quick' else 40
     rep_jobs = [(o, seed + i) for i, o in enumerate(mid[:n_rep])]
@@ -411,6 +422,13 @@ def main(tier: str, seed: int) -> int:
         'unique_program_sets': len(ulist),
         'tlc_runs': [{k: t[k] for k in ('mode', 'distinct', 'generated')}
                      for t in tres][:60],
+        'confluence_lemma': {
+            'program_sets': sum(c['program_sets'] for c in confl),
+            'states': sum(c['states'] for c in confl),
+            'diamonds_closed': sum(c['diamonds'] for c in confl),
+            'rule': 'every pair of distinct enabled actions of the unreduced '
+                    'Comm stays enabled and commutes; one terminal state per '
+                    'program set (well-formed and ill-formed programs)'},
         'tlc_schedules_replayed': n_sched,
         'tlc_schedules_not_followed': drift,
         'histories': sorted({o['case']['hist_name'] for o in outs}),
